@@ -34,7 +34,10 @@ using Del = std::default_delete<Node>;
 #else
 struct Del { long tag = -1; void operator()(Node* n) const; };
 #endif
-struct Node : R::template enable_concurrent_ptr<Node, 0, Del> {
+#ifndef XV_MARKBITS
+  #define XV_MARKBITS 0
+#endif
+struct Node : R::template enable_concurrent_ptr<Node, XV_MARKBITS, Del> {
   long id; long canary;
   explicit Node(long i) : id(i), canary(0xA11CE) { xv::Quiet q; g_created++; }
   ~Node() override { canary = 0xDEAD; xv::Quiet q; if (!g_destroyed) g_destroyed = new std::map<long, int>(); (*g_destroyed)[id]++; }
@@ -46,7 +49,7 @@ static Del mkdel(long id) { Del d; d.tag = id; return d; }
 static Del mkdel(long) { return Del(); }
 #endif
 
-using CPtr = typename R::template concurrent_ptr<Node, 0>;
+using CPtr = typename R::template concurrent_ptr<Node, XV_MARKBITS>;
 using Guard = typename CPtr::guard_ptr;
 using MPtr = typename CPtr::marked_ptr;
 
@@ -91,10 +94,22 @@ struct ReclAdapter : Adapter {
         delete n;
         return "lost";
       }
+      if (o == "mark") {   // toggle the mark bit of the pointer in cell a (no-op without mark bits): changes the marked_ptr value, not the object
+#if XV_MARKBITS > 0
+        {
+          for (;;) {
+            MPtr e = (*cells)[a].load(std::memory_order_relaxed);
+            MPtr n2(e.get(), (e.mark() ^ 1) & ((1u << XV_MARKBITS) - 1));
+            if ((*cells)[a].compare_exchange_strong(e, n2, std::memory_order_acq_rel, std::memory_order_relaxed)) return "ok";
+          }
+        }
+#endif
+        return "ok";
+      }
       if (o == "read") { Guard g; g.acquire((*cells)[a], std::memory_order_acquire); return deref(g); }
       if (o == "readeq") { MPtr e = (*cells)[a].load(std::memory_order_relaxed); Guard g; bool r = g.acquire_if_equal((*cells)[a], e, std::memory_order_acquire); if (!r) { if (g) return "BAD-nonempty-after-false"; return "ne"; } if (MPtr(g) != e) return "BAD-snapshot"; return deref(g); }
       if (o == "hold") { G[b].acquire((*cells)[a], std::memory_order_acquire); return deref(G[b]); }
-      if (o == "holdeq") { MPtr e = (*cells)[a].load(std::memory_order_relaxed); bool r = G[b].acquire_if_equal((*cells)[a], e, std::memory_order_acquire); if (!r) return G[b] ? "BAD-nonempty-after-false" : "ne"; return deref(G[b]); }
+      if (o == "holdeq") { MPtr e = (*cells)[a].load(std::memory_order_relaxed); bool r = G[b].acquire_if_equal((*cells)[a], e, std::memory_order_acquire); if (!r) return G[b] ? "BAD-nonempty-after-false" : "ne"; if (MPtr(G[b]) != e) return "BAD-snapshot"; return deref(G[b]); }
       if (o == "deref") return deref(G[a]);
       if (o == "drop") { G[a].reset(); return G[a] ? "BAD" : "ok"; }
       if (o == "copy") { G[b] = G[a]; return deref(G[b]); }
